@@ -629,6 +629,53 @@ def run_same_object_history(acc):
                     pass
 
 
+def run_abandoned_history(acc):
+    """A consumer gives up part-way through the stream of pairs (a send
+    failed, or it only peeked at the first pair): the next request in the
+    same process must still select exactly its own targets."""
+    import gc
+    from rig.machine_control.regions import (compress_flood_fill_regions,
+                                             RegionCoreTree)
+    pool = [p for p in F9_pool() if expand(p)]
+    for ia, a in enumerate(pool):
+        ta = expand(a)
+        for k in (0, 1, 2, 5):
+            for how in ("function", "tree"):
+                acc.evaluations += 1
+                try:
+                    if how == "function":
+                        it = iter(compress_flood_fill_regions(
+                            {(x, y): set(cs) for x, y, cs in ta}))
+                    else:
+                        tree = RegionCoreTree()
+                        for x, y, cs in ta:
+                            for p in cs:
+                                tree.add_core(x, y, p)
+                        it = iter(tree.get_regions_and_coremasks())
+                    for _ in range(k):
+                        next(it, None)
+                    if k == 5:
+                        # abandoned but kept alive while the next request is
+                        # served
+                        keep = it
+                    else:
+                        del it
+                        gc.collect(0)
+                except Exception as e:
+                    acc.violation(dict(kind="exception",
+                                       exc=type(e).__name__),
+                                  dict(recipe=dict(abandoned=True),
+                                       desc="F9 abandoned"),
+                                  "%s: %s" % (type(e).__name__, e))
+                    continue
+                for b in pool:
+                    judge(dict(recipe=dict(abandoned=True, history=True),
+                               desc="F9 after a %s stream for pool entry %d "
+                               "was abandoned after %d pairs" % (how, ia, k),
+                               targets=expand(b)), acc)
+                    acc.nontrivial += 1
+
+
 def F9_histories():
     pool = F9_pool()
     hs = [[a, b] for a in pool for b in pool]
@@ -645,6 +692,7 @@ def F9(tier, acc, upto=None):
         run_history(h, acc, idx)
     if upto is None:
         run_same_object_history(acc)
+        run_abandoned_history(acc)
     acc.sample(dict(family="F9", histories=len(hs)))
 
 
@@ -663,6 +711,9 @@ def replay(case, acc):
         return
     if "f10" in rec:
         F10("quick", acc)
+        return
+    if "abandoned" in rec:
+        run_abandoned_history(acc)
         return
     if "history" in rec:
         # module state can only come from the calls made before it
